@@ -378,7 +378,7 @@ fn run_jobs(jobs: &[Job], thorough: bool, t0: Instant, seed: u64) -> Vec<JobResu
     let cap = if thorough {
         Duration::from_secs(std::env::var("VERIF_THOROUGH_CAP_S").ok().and_then(|s| s.parse().ok()).unwrap_or(2400))
     } else {
-        Duration::from_secs(std::env::var("VERIF_QUICK_CAP_S").ok().and_then(|s| s.parse().ok()).unwrap_or(150))
+        Duration::from_secs(std::env::var("VERIF_QUICK_CAP_S").ok().and_then(|s| s.parse().ok()).unwrap_or(240))
     };
     let deadline = t0 + cap;
     let ncpu = std::thread::available_parallelism().map(|n| n.get()).unwrap_or(8).min(16);
